@@ -144,6 +144,12 @@ SENTINELS = [
     ("cool", dict(base=5.0, bh=0.0, bph=50.0, bc=0.3, bpc=75.0), (0.09, 0.16)),
     ("cool", dict(base=5.0, bh=0.0, bph=50.0, bc=0.3, bpc=75.0), (0.09, 0.16)),
     ("heat", dict(base=5.0, bh=0.3, bph=45.0, bc=0.0, bpc=70.0), (0.09, 0.16)),
+    # the opposite corner: highest base load x lowest slopes (slope below 1 % of the base load per degree) with a long
+    # season, so that the load is nevertheless 7 % or more of mean usage (RMS): what a "negligible slope" pruning that
+    # compares a per-degree slope with the base load erases
+    ("heat", dict(base=50.0, bh=0.4, bph=58.0, bc=0.0, bpc=70.0), (14.0, 1e9)),
+    ("cool", dict(base=50.0, bh=0.0, bph=50.0, bc=0.4, bpc=64.0), (14.0, 1e9)),
+    ("heat", dict(base=46.0, bh=0.36, bph=56.0, bc=0.0, bpc=70.0), (12.0, 1e9)),
 ]
 
 
